@@ -238,7 +238,7 @@ def h_tiling(cx, ssu, ssv, spacing, tess):
     cx.check('covered_exactly_once', cnt == 1, 'query point covered by %d triangles' % cnt)
 
 
-def h_trim(cx, ss, rect, reversed_sense):
+def h_trim(cx, ss, rect, reversed_sense, moved_from=None):
     """rectangular trim [a,b]x[c,d] in the parametric square, cell size h = 1/(ss-1)"""
     s = _concrete_surface(cx, ss, ss)
     ff = geo.M('freeform').Freeform()
@@ -247,8 +247,19 @@ def h_trim(cx, ss, rect, reversed_sense):
     if reversed_sense:
         ff.opt = ['reversed', 1]
     s.tessellator = geo.M('tessellate').TrimTessellate()
-    s.trims = [ff]
-    s.tessellate()
+    if moved_from is not None:
+        # the surface was tessellated with the trim somewhere else before; then the trim curve was moved and the
+        # tessellation forced again
+        a0, b0, c0, d0 = [F(x) for x in moved_from]
+        ff.evaluate(points=[[a0, c0], [b0, c0], [b0, d0], [a0, d0], [a0, c0]])
+        s.trims = [ff]
+        s.tessellate()
+        len(s.faces)
+        ff.evaluate(points=[[a, c], [b, c], [b, d], [a, d], [a, c]])
+        s.tessellate(force=True)
+    else:
+        s.trims = [ff]
+        s.tessellate()
     tris = [[[_uvq(x) for x in v.uv] for v in f.vertices] for f in s.faces]
     cx.check('has_triangles', len(tris) > 0)
     for k, f in enumerate(s.faces):
@@ -420,6 +431,7 @@ def instances(tier):
             (() if quick else ((9, (F(1, 8), F(5, 8), F(1, 4), F(7, 8))), (11, (F(1, 5), F(3, 5), F(3, 10), F(9, 10))))):
         for rev in (False, True):
             out.append(inst('trim ss%d rect%s %s' % (ss, tuple(str(x) for x in rect), 'reversed' if rev else 'normal'), h_trim, timeout=2400, ss=ss, rect=rect, reversed_sense=rev))
+    out.append(inst('trim ss6 moved from another place, tessellation forced again', h_trim, timeout=2400, ss=6, rect=(F(1, 5), F(4, 5), F(1, 5), F(4, 5)), reversed_sense=False, moved_from=(F(1, 20), F(3, 20), F(1, 20), F(3, 20))))
     e1 = [spec('surface', (1, 1), ((), ()), rational=False)]
     e2 = e1 + [spec('surface', (1, 2), ((), ()), rational=True)]
     e3 = e2 + [spec('surface', (2, 1), ((), ()), rational=False)]
